@@ -67,12 +67,18 @@ def main():
         q.pop("dump", None)
         q["opts"] = dict(c["opts"], zooms=[])
         cases.append(q)
+    # a third of the trees once more, searched in "the same file as a big-endian machine would hold it" (the real writer's file re-laid
+    # out in the other byte order by the independent codec, same fan-out): index nodes are decoded through the reader's other branch
+    for c in [c for c in cases if not c.get("qonly")][1::3]:
+        cases.append(dict(c, swap=1, swapdump=1, qonly=1, dump=c["dump"] + ".sw"))
     obs = run_harness("bbi", cases, run.wd, hang_timeout=20)
+    from checks.bbi_family import byte_swapped
+    byte_swapped(run, obs, 20)
     lines, qlines_bw, qlines_bb, owner_bw, owner_bb = [], [], [], [], []
     for k, o in enumerate(obs):
         o.pop("case", None)
         if o.get("qonly"):
-            q = json.dumps({k2: o[k2] for k2 in ("kind", "chroms", "items", "opts", "obs", "asq", "mz", "scale")}, separators=(",", ":"))
+            q = json.dumps({k2: o[k2] for k2 in ("kind", "chroms", "items", "opts", "obs", "asq", "mz", "scale", "vmap")}, separators=(",", ":"))
             (qlines_bw if o["kind"] == "bw" else qlines_bb).append(q)
             (owner_bw if o["kind"] == "bw" else owner_bb).append(k)
             continue
